@@ -381,6 +381,33 @@ fn body_decls(out: &mut Vec<Decl>) {
     push("struct S { a: u8 }", vec![None], &[5]);
     push("#[darling(attributes(a))] struct S { a: u8 }", vec![], &elem);
     let _ = &all;
+    // a body-level rule next to an unrelated per-member error: every violated rule is reported
+    for pre in ["", a] {
+        let ds: &[usize] = if pre.is_empty() { &[0] } else { &elem };
+        let s1 = format!("{pre}struct S {{ #[darling(flatten)] a: u8, #[darling(flatten)] b: u8, #[darling(zz)] c: u8 }}");
+        push(&s1, vec![find(&s1, "flatten", 0), find(&s1, "flatten", 1), find(&s1, "zz", 0)], ds);
+        let s2 = format!("{pre}struct S {{ #[darling(skip, skip)] c: u8, #[darling(flatten)] a: u8, d: u8, #[darling(flatten)] b: u8 }}");
+        push(&s2, vec![find(&s2, "skip", 1), find(&s2, "flatten", 0), find(&s2, "flatten", 1)], ds);
+    }
+    let c1 = format!("{a}struct S {{ attrs: Vec<syn::Attribute>, #[darling(zz)] b: u8 }}");
+    push(&c1, vec![find(&c1, "attrs", 0), find(&c1, "zz", 0)], &elem);
+    let c2 = "enum E { #[darling(word)] A, #[darling(word)] B, #[darling(zz)] C }";
+    push(c2, vec![find(c2, "word", 0), find(c2, "word", 1), find(c2, "zz", 0)], &[0]);
+    let c3 = "#[darling(from_word = f)] enum E { #[darling(word)] A, #[darling(rename = \"x\", rename = \"y\")] B }";
+    push(c3, vec![find(c3, "from_word = f", 0), find(c3, "rename = \"y\"", 0)], &[0]);
+    let c4 = "#[darling(from_word = f)] struct S(#[darling(zz)] u8);";
+    push(c4, vec![find(c4, "f)", 0).map(|c| (c.0, c.1 - 1)), find(c4, "zz", 0)], &[0]);
+    // FromAttributes: a newtype struct delegates and needs no attributes(..)
+    push("struct S(u8);", vec![], &[5]);
+    push("#[darling(attributes(a))] struct S(u8);", vec![], &elem);
+    push("struct S(u8);", vec![], &[1, 2, 3, 4]);
+    // an `attrs` field with a converter still needs forward_attrs
+    let at4 = format!("{a}struct S {{ #[darling(with = f)] attrs: Vec<u8>, b: u8 }}");
+    push(&at4, vec![find(&at4, "attrs", 0)], &elem);
+    let at5 = "#[darling(attributes(a), forward_attrs)] struct S { #[darling(with = f)] attrs: Vec<u8>, b: u8 }";
+    push(at5, vec![], &elem);
+    // `data` with a converter is fine (FromDeriveInput)
+    push("#[darling(attributes(a))] struct S { #[darling(with = f)] data: u8, b: u8 }", vec![], &[1]);
     // known option, value of the wrong form
     for (opt, needle) in [("skip = 5", "5"), ("rename = 5", "5"), ("multiple = \"yes\"", "\"yes\""), ("default(x)", "default(x)"), ("with = 5", "5"), ("map = 5", "5"), ("flatten = 1", "flatten = 1")] {
         let s = format!("{a}struct S {{ #[darling({opt})] a: u8, b: u8 }}");
